@@ -178,6 +178,8 @@ pub struct RunOut {
     pub nthreads: usize,
     pub sched_hash: u64,
     pub digest: u64,
+    pub tainted: bool,
+    pub forced_unblock: u64,
 }
 
 #[cfg(feature = "threads")]
@@ -196,6 +198,8 @@ pub fn run_plan(plan: &Plan, env: &mut Env, corpus: &Arc<Vec<String>>, forced: O
         nthreads: plan.threads.len(),
         sched_hash: 0,
         digest: 0,
+        tainted: false,
+        forced_unblock: 0,
     };
     // --- setup: build the shared engines on the main thread
     let mut shared: Vec<SharedEngine> = Vec::new();
@@ -307,6 +311,30 @@ pub fn run_plan(plan: &Plan, env: &mut Env, corpus: &Arc<Vec<String>>, forced: O
             }
         }
     }
+    // monitor: wait for the simulated threads; if the baton holder makes no progress for 400 ms it
+    // is presumed blocked (on a lock held by a parked thread) and the baton is taken away
+    {
+        let mut last = sched.heartbeat.load(std::sync::atomic::Ordering::Relaxed);
+        let mut still = Instant::now();
+        while !handles.iter().all(|h| h.is_finished()) {
+            std::thread::sleep(std::time::Duration::from_millis(2));
+            let now = sched.heartbeat.load(std::sync::atomic::Ordering::Relaxed);
+            if now != last {
+                last = now;
+                still = Instant::now();
+            } else if still.elapsed().as_millis() > 400 {
+                if !sched.force_unblock() {
+                    println!("HARNESS-ERROR L2a: every simulated thread is blocked (deadlock inside the code under test?); cannot continue");
+                    std::process::exit(2);
+                }
+                still = Instant::now();
+            }
+            if t0.elapsed().as_secs() > 600 {
+                println!("HARNESS-ERROR L2a: a plan ran for more than 600 s");
+                std::process::exit(2);
+            }
+        }
+    }
     let mut thr: Vec<ThreadOut> = Vec::new();
     for h in handles {
         match h.join() {
@@ -317,7 +345,6 @@ pub fn run_plan(plan: &Plan, env: &mut Env, corpus: &Arc<Vec<String>>, forced: O
             }
         }
     }
-    let _ = t0;
     {
         let st = sched.m.lock().unwrap();
         out.schedule = st.log.clone();
@@ -325,6 +352,8 @@ pub fn run_plan(plan: &Plan, env: &mut Env, corpus: &Arc<Vec<String>>, forced: O
         out.switches_by_site = st.switches_by_site;
         out.total_yields = st.total;
         out.diverged = st.diverged;
+        out.tainted = st.tainted;
+        out.forced_unblock = st.forced_unblock;
     }
     let mut h = 0u64;
     for (t, n, f) in &out.schedule {
@@ -471,53 +500,163 @@ pub fn cmd_l2a(args: &crate::Args) -> i32 {
         det: (u64, u64),
     }
     let det_stride = if det == 0 { 0 } else { (runs / det.max(1)).max(1) };
-    let mut handles = Vec::new();
-    for w in 0..workers {
-        let corpus = corpus.clone();
-        handles.push(std::thread::Builder::new().stack_size(64 << 20).spawn(move || -> Result<Vec<Sum>, String> {
-            let mut env = Env::new(&format!("l2a-w{}", w))?;
-            let pools = crate::gen::Pools::new(seed);
-            let mut v = Vec::new();
-            let mut i = w as u64;
-            while i < runs {
-                let plan = gen_plan(mix(&[seed, 0x12a, i]), &pools.plain_metas, env.corpus.len());
-                let out = run_plan(&plan, &mut env, &corpus, None, &format!("l2a-w{}", w));
-                // determinism sample: same plan + same seed => same schedule and digest;
-                // forcing the recorded schedule => no divergence, same digest
-                let mut det = (0u64, 0u64);
-                if det_stride > 0 && i % det_stride == 0 && out.harness.is_none() && out.violation.is_none() {
-                    let again = run_plan(&plan, &mut env, &corpus, None, &format!("l2a-w{}d", w));
+    let pools = crate::gen::Pools::new(seed);
+    let corpus_len = corpus.len();
+    // --- child mode: run one shard single-threaded (apart from the simulated threads) and report
+    if let Some(outp) = args.opt.get("child-out") {
+        let shard = args.num("shard", 0);
+        let of = args.num("of", 1).max(1);
+        let mut env = match Env::new(&format!("l2a-c{}", shard)) {
+            Ok(e) => e,
+            Err(e) => {
+                eprintln!("l2a child: {}", e);
+                return 2;
+            }
+        };
+        let status = std::env::var_os("JBSIM_STATUS_FILE").map(std::path::PathBuf::from);
+        let mut t = String::new();
+        use std::fmt::Write as _;
+        let mut i = shard;
+        while i < runs {
+            if let Some(p) = &status {
+                let _ = std::fs::write(p, format!("{}", i));
+            }
+            let plan = gen_plan(mix(&[seed, 0x12a, i]), &pools.plain_metas, corpus_len);
+            let out = run_plan(&plan, &mut env, &corpus, None, &format!("l2a-c{}", shard));
+            // determinism sample: same plan + same seed => same schedule and digest;
+            // forcing the recorded schedule => no divergence, same digest
+            let mut det = (0u64, 0u64);
+            if det_stride > 0 && i % det_stride == 0 && out.harness.is_none() && out.violation.is_none() && !out.tainted {
+                let again = run_plan(&plan, &mut env, &corpus, None, &format!("l2a-c{}d", shard));
+                if !again.tainted {
                     det.0 += 1;
                     if again.sched_hash != out.sched_hash || again.digest != out.digest {
                         det.1 += 1;
                     }
-                    let mut p2 = plan.clone();
-                    p2.strategy = out.strategy.clone();
-                    let forced = run_plan(&p2, &mut env, &corpus, Some(out.schedule.clone()), &format!("l2a-w{}f", w));
+                }
+                let mut p2 = plan.clone();
+                p2.strategy = out.strategy.clone();
+                let forced = run_plan(&p2, &mut env, &corpus, Some(out.schedule.clone()), &format!("l2a-c{}f", shard));
+                if !forced.tainted {
                     det.0 += 1;
                     if forced.diverged || forced.sched_hash != out.sched_hash || forced.digest != out.digest {
                         det.1 += 1;
                     }
                 }
-                v.push(Sum { i, out, plan, det });
-                i += workers as u64;
             }
-            Ok(v)
-        }).unwrap());
+            let clean = |x: &str| x.replace(['\t', '\n'], " ");
+            let sites: Vec<String> = out.switches_by_site.iter().map(|x| x.to_string()).collect();
+            let _ = writeln!(
+                t,
+                "R\t{}\t{:x}\t{:x}\t{}\t{}\t{}\t{}\t{}\t{}\t{}\t{}\t{}\t{}\t{}\t{}\t{}",
+                i,
+                out.sched_hash,
+                out.digest,
+                out.switches,
+                out.total_yields,
+                out.keys_compared,
+                out.nthreads,
+                out.strategy.to_text(),
+                out.tainted as u8,
+                out.forced_unblock,
+                out.stats.vacuous,
+                det.0,
+                det.1,
+                sites.join(","),
+                out.harness.as_deref().map(clean).unwrap_or_default(),
+                out.violation.as_ref().map(|v| format!("{}\x1f{}\x1f{}", v.oracle, clean(&v.class), clean(&v.detail))).unwrap_or_default()
+            );
+            i += of;
+        }
+        t.push_str("DONE\n");
+        return if std::fs::write(outp, t).is_ok() { 0 } else { 2 };
     }
-    let mut all: Vec<Sum> = Vec::new();
-    for h in handles {
-        match h.join() {
-            Ok(Ok(v)) => all.extend(v),
-            Ok(Err(e)) => {
-                println!("HARNESS-ERROR {}", e);
-                return 2;
-            }
-            Err(_) => {
-                println!("HARNESS-ERROR l2a worker panicked");
+    // --- parent: shard over child processes (so that process-wide state in the code under test
+    //     cannot leak between plans that merely run at the same time)
+    let dir = crate::env::scratch_root().join("l2a-parent");
+    let _ = std::fs::create_dir_all(&dir);
+    let exe = std::env::current_exe().expect("current_exe");
+    let mut children = Vec::new();
+    for k in 0..workers as u64 {
+        let outp = dir.join(format!("shard.{}", k));
+        let st = dir.join(format!("status.{}", k));
+        let c = std::process::Command::new(&exe)
+            .arg("l2a")
+            .args(["--tier", &tier, "--seed", &seed.to_string(), "--runs", &runs.to_string(), "--determinism", &det.to_string()])
+            .args(["--shard", &k.to_string(), "--of", &workers.to_string(), "--child-out", outp.to_str().unwrap()])
+            .env("JBSIM_STATUS_FILE", &st)
+            .stdout(std::process::Stdio::inherit())
+            .spawn();
+        match c {
+            Ok(c) => children.push((k, c, outp, st)),
+            Err(e) => {
+                println!("HARNESS-ERROR spawn: {}", e);
                 return 2;
             }
         }
+    }
+    let mut early_harness: Vec<String> = Vec::new();
+    for (k, c, _, st) in children.iter_mut() {
+        match c.wait() {
+            Ok(s) if s.success() => {}
+            Ok(s) => early_harness.push(format!("L2a worker process {} ended abnormally ({:?}) in plan {}", k, s, std::fs::read_to_string(&*st).unwrap_or_default())),
+            Err(e) => early_harness.push(e.to_string()),
+        }
+    }
+    let mut all: Vec<Sum> = Vec::new();
+    for (_, _, outp, _) in &children {
+        let text = std::fs::read_to_string(outp).unwrap_or_default();
+        if !text.ends_with("DONE\n") {
+            early_harness.push(format!("incomplete L2a shard output {}", outp.display()));
+        }
+        for l in text.lines() {
+            let f: Vec<&str> = l.split('\t').collect();
+            if f[0] != "R" || f.len() < 17 {
+                continue;
+            }
+            let i: u64 = f[1].parse().unwrap_or(0);
+            let mut by_site = [0u64; 16];
+            for (k, x) in f[14].split(',').enumerate().take(16) {
+                by_site[k] = x.parse().unwrap_or(0);
+            }
+            let strategy = if let Some(m) = f[8].strip_prefix("random:") {
+                Strategy::Random { mean: m.parse().unwrap_or(1.0) }
+            } else {
+                Strategy::Pct { change_points: f[8].trim_start_matches("pct:").split(',').filter_map(|x| x.parse().ok()).collect() }
+            };
+            let mut stats = Stats::default();
+            stats.vacuous = f[11].parse().unwrap_or(0);
+            let violation = if f[16].is_empty() {
+                None
+            } else {
+                let p: Vec<&str> = f[16].split('\x1f').collect();
+                let oracle: &'static str = Box::leak(p[0].to_string().into_boxed_str());
+                Some(Violation { oracle, class: p.get(1).unwrap_or(&"").to_string(), detail: p.get(2).unwrap_or(&"").to_string(), op_index: 0 })
+            };
+            let out = RunOut {
+                violation,
+                harness: if f[15].is_empty() { None } else { Some(f[15].to_string()) },
+                schedule: vec![],
+                switches: f[4].parse().unwrap_or(0),
+                switches_by_site: by_site,
+                total_yields: f[5].parse().unwrap_or(0),
+                stats,
+                keys_compared: f[6].parse().unwrap_or(0),
+                diverged: false,
+                strategy,
+                nthreads: f[7].parse().unwrap_or(0),
+                sched_hash: u64::from_str_radix(f[2], 16).unwrap_or(0),
+                digest: u64::from_str_radix(f[3], 16).unwrap_or(0),
+                tainted: f[9] == "1",
+                forced_unblock: f[10].parse().unwrap_or(0),
+            };
+            let plan = gen_plan(mix(&[seed, 0x12a, i]), &pools.plain_metas, corpus_len);
+            all.push(Sum { i, out, plan, det: (f[12].parse().unwrap_or(0), f[13].parse().unwrap_or(0)) });
+        }
+    }
+    let _ = std::fs::remove_dir_all(&dir);
+    if (all.len() as u64) < runs && early_harness.is_empty() {
+        early_harness.push(format!("only {} of {} plans were executed", all.len(), runs));
     }
     all.sort_by_key(|s| s.i);
     let det_pairs: u64 = all.iter().map(|s| s.det.0).sum();
@@ -532,7 +671,7 @@ pub fn cmd_l2a(args: &crate::Args) -> i32 {
     let mut keys = 0u64;
     let mut nthreads_hist: BTreeMap<String, u64> = BTreeMap::new();
     let mut strat_hist: BTreeMap<String, u64> = BTreeMap::new();
-    let mut harness = Vec::new();
+    let mut harness: Vec<String> = early_harness;
     let mut found: Vec<&Sum> = Vec::new();
     for s in &all {
         stats.merge(&s.out.stats);
@@ -583,10 +722,29 @@ pub fn cmd_l2a(args: &crate::Args) -> i32 {
             println!("KNOWN-FINDING: {}", t);
             continue;
         }
-        // minimise: drop threads / ops while some seeded schedule still shows the same signature
+        // reproduce in this (otherwise idle) process to obtain the executed schedule
         let mut plan = s.plan.clone();
-        plan.strategy = s.out.strategy.clone();
         let mut best_sched = s.out.schedule.clone();
+        let mut realised = s.out.strategy.clone();
+        if let Some(env) = env.as_mut() {
+            for attempt in 0..6u64 {
+                let mut q = plan.clone();
+                if attempt > 0 {
+                    q.sched_seed = mix(&[plan.sched_seed, 0x7e7, attempt]);
+                }
+                let o = run_plan(&q, env, &corpus, None, "l2a-rep");
+                if o.violation.as_ref().map(|x| x.signature() == sig).unwrap_or(false) {
+                    best_sched = o.schedule;
+                    realised = o.strategy;
+                    plan = q;
+                    break;
+                }
+            }
+        }
+        // minimise: drop threads / ops while some seeded schedule still shows the same signature
+        let orig_plan = plan.clone();
+        let orig_sched = best_sched.clone();
+        plan.strategy = realised.clone();
         if let Some(env) = env.as_mut() {
             let tmin = Instant::now();
             let still = |p: &Plan, env: &mut Env| -> Option<Vec<(u16, u64, bool)>> {
@@ -635,14 +793,14 @@ pub fn cmd_l2a(args: &crate::Args) -> i32 {
             let o = run_plan(&plan, env, &corpus, Some(best_sched.clone()), "l2a-min");
             if !o.violation.as_ref().map(|x| x.signature() == sig).unwrap_or(false) {
                 // fall back to the original, unminimised failure
-                plan = s.plan.clone();
-                plan.strategy = s.out.strategy.clone();
-                best_sched = s.out.schedule.clone();
+                plan = orig_plan.clone();
+                plan.strategy = realised.clone();
+                best_sched = orig_sched.clone();
             }
         }
         let mut body = plan.to_lines();
         body.push(format!("schedule {}", schedule_text(&best_sched)));
-        let rf = crate::runner::ReplayFile { property: "C03".into(), world: "W1".into(), layer: "L2a".into(), verif_seed: seed, run: s.i, swarm: format!("threads={} strategy={}", plan.threads.len(), plan.strategy.to_text()), signature: sig.clone(), detail: v.detail.clone(), body };
+        let rf = crate::runner::ReplayFile { property: "C03".into(), world: "W1".into(), layer: "L2a".into(), verif_seed: seed, run: s.i, swarm: format!("threads={} strategy={}{}", plan.threads.len(), plan.strategy.to_text(), if s.out.tainted { " tainted-by-blocking" } else { "" }), signature: sig.clone(), detail: v.detail.clone(), body };
         let name = format!("C03-L2a-{}-{}.replay", seed, s.i);
         let path = match crate::runner::write_replay(&replay_dir, &name, &rf) {
             Ok(p) => p,
@@ -689,6 +847,8 @@ pub fn cmd_l2a(args: &crate::Args) -> i32 {
         .set("waveform_keys_compared", J::u(keys))
         .set("threads_per_run", J::from_counts(&nthreads_hist))
         .set("strategies", J::from_counts(&strat_hist))
+        .set("tainted_runs_blocking_detected", J::u(all.iter().filter(|s| s.out.tainted).count() as u64))
+        .set("forced_unblocks", J::u(all.iter().map(|s| s.out.forced_unblock).sum()))
         .set("determinism_pairs_checked", J::u(det_pairs))
         .set("determinism_mismatches", J::u(det_mismatch))
         .set("schedules_per_hour", J::u((all.len() as f64 / wall.max(1e-9) * 3600.0) as u64))
@@ -722,7 +882,15 @@ pub fn replay_l2a(f: &crate::runner::ReplayFile) -> i32 {
         }
     };
     let corpus = Arc::new(env.corpus.clone());
-    let o = run_plan(&plan, &mut env, &corpus, forced, "l2a-replay");
+    let mut o = run_plan(&plan, &mut env, &corpus, forced.clone(), "l2a-replay");
+    // a run in which a thread blocked on a lock cannot be replayed exactly: allow a few attempts
+    let mut attempts = 1;
+    while o.violation.is_none() && o.harness.is_none() && (o.tainted || f.swarm.contains("tainted")) && attempts < 6 {
+        let mut p = plan.clone();
+        p.sched_seed = mix(&[plan.sched_seed, attempts]);
+        o = run_plan(&p, &mut env, &corpus, if attempts % 2 == 0 { forced.clone() } else { None }, "l2a-replay");
+        attempts += 1;
+    }
     if let Some(h) = o.harness {
         println!("HARNESS-ERROR {}", h);
         return 2;
